@@ -7,6 +7,7 @@ OBLIGATIONS = [
     ob('C01.depth.formula', GD + 'c01_depth_formula', 'root_depth == 0 -> (base, depth) == (canonical, 1); root_depth > 0 and canonical >= root_depth -> depth == canonical - root_depth + 1, no u32 wrap', units=['gate_depth']),
     ob('C01.recursion.args', GD + 'c01_recursion_args', 'every recursive self.visit_dir(..) call (dfs recursion and bfs queue drain) passes min_depth, max_depth unchanged and base_depth as the root depth, so that levels are measured from the same root in both modes', units=['gate_depth']),
     ob('C01.roots', 'verif_frag::traversal::c01_per_root', 'per-root set-up of list_search_results (verbatim loop body on a shim world), for all option values and whatever state an earlier root left: the root is traversed once, with its own symlink flag, depth window (levels from this root), traversal mode, archives and ignore options', units=['traversal']),
+    ob('C01.ok_to_visit', 'verif_frag::traversal::c01_ok_to_visit', 'ok_to_visit_dir (verbatim body on a shim world), for all inodes: a directory entry is entered iff its own inode was not visited before and it is not a symlink or symlinks are followed; only the entry own inode is recorded', units=['traversal']),
     ob('C01.prologue', 'verif_frag::traversal::c01_prologue', 'prologue of visit_dir (verbatim): a directory is skipped up front iff symlinks are followed and it was already visited, for all depth options', units=['traversal']),
 ]
 CANARIES = [dict(harness=GW + 'canary_gates_must_fail', units=['gate_report']), dict(harness=GD + 'canary_depth_must_fail', units=['gate_depth']), dict(harness='verif_frag::traversal::canary_traversal_must_fail', units=['traversal'])]
@@ -15,4 +16,4 @@ ASSUMPTIONS = [
     'canonical_depth >= base_depth (false when a followed symlink leads above the root): required by C01.depth.formula, not proved',
     'u32 machine arithmetic reasoned about bit-precisely; depth < u32::MAX assumed in the descend gate oracle',
 ]
-NOT_COVERED = ['exactly-once and no-other-row', 'bfs/dfs order', 'symlinks listed but not descended', 'root parsing, default root, regexp roots', 'visited_inodes de-duplication (ok_to_visit_dir needs a DirEntry)', 'calc_depth / canonical_path (std path handling)']
+NOT_COVERED = ['exactly-once and no-other-row', 'bfs/dfs order', 'symlinks listed but not descended', 'root parsing, default root, regexp roots', 'calc_depth / canonical_path (std path handling)']
